@@ -50,13 +50,14 @@ inductive Exc
   | renderError    -- `RenderError` (convert/resize wrap their failure in it)
   | closedError    -- `TermImageError` from `_close_validated`
   | sizeError      -- `InvalidSizeError` / `ValueError` out of size validation
-  | urlNotFound | unidentified | connection
+  | urlNotFound | unidentified | connection | typeError | valueError
 deriving DecidableEq, Repr
 
 def Exc.name : Exc → String
   | .pil => "Fault" | .renderError => "RenderError" | .closedError => "TermImageError"
   | .sizeError => "InvalidSizeError" | .urlNotFound => "URLNotFoundError"
   | .unidentified => "UnidentifiedImageError" | .connection => "ConnectionError"
+  | .typeError => "TypeError" | .valueError => "ValueError"
 
 inductive Ev
   | call (c : Call) (on : Option Nat) (made : Option Nat)   -- a Pillow call: receiver, created object
